@@ -103,7 +103,7 @@ def SEARCH_ONLY(unit):
     (no corrupted type indices, no hand-made header state).  When it finds nothing, nothing is known about a counterexample that
     needs such a state, so a clean run does NOT demote the refutation (the decision procedure is complete on the extracted text);
     c18_native enumerates the whole scope of the counterexample sizes and does demote."""
-    return (unit.get('replay') or '').split()[:1] == ['hdr_native']
+    return (unit.get('replay') or '').split()[:1] in (['hdr_native'], ['c13_native'], ['nvd_native'])
 
 
 def native_replay(unit, prop, values, outdir):
